@@ -25,6 +25,10 @@ def classes(g1_json):
         'calc_all': call('calculate_report', {'transactions': G1}),
         'calc_json': call('calculate_report', {'transactions': g1_json}),
         'calc_year': call('calculate_report', {'transactions': G1, 'year': 2020}),
+        # input sniffing: JSON after leading white space, DSL after leading blank and comment lines, JSON through the parse tool
+        'calc_json_ws': call('calculate_report', {'transactions': '\n  \t' + g1_json + '\n'}),
+        'calc_dsl_lead': call('calculate_report', {'transactions': '\n# my ledger [2020]\n\n' + G1}),
+        'parse_json': call('parse_transactions', {'transactions': g1_json}),
         'calc_mixed': call('calculate_report', {'transactions': G2, 'year': 2024}),
         'explain_mixed': call('explain_matching', {'transactions': G2, 'disposal_date': '2024-09-10', 'ticker': 'VOD'}),
         'parse': call('parse_transactions', {'transactions': G1}),
@@ -261,8 +265,11 @@ def _mcp_check(tier, seed):
         core = lambda j: {'tax_years': j['tax_years'], 'holdings': j['holdings']}
         expect['calc_all'] = {'kind': 'result', 'digest': cli_digest(['report', '--format', 'json', 'g1.cgt'], core)}
         expect['calc_json'] = expect['calc_all']
+        expect['calc_json_ws'] = expect['calc_all']
+        expect['calc_dsl_lead'] = expect['calc_all']
         expect['calc_year'] = {'kind': 'result', 'digest': cli_digest(['report', '--format', 'json', '--year', '2020', 'g1.cgt'], core)}
         expect['parse'] = {'kind': 'result', 'digest': cli_digest(['parse', 'g1.cgt'], lambda j: j)}
+        expect['parse_json'] = expect['parse']
         open(os.path.join(root, 'ref', 'g2.cgt'), 'w').write(G2)
         expect['calc_mixed'] = {'kind': 'result', 'digest': cli_digest(['report', '--format', 'json', '--year', '2024', 'g2.cgt'], core)}
         for n in ('bad_args', 'bad_dsl', 'bad_json', 'bad_json_wide_a', 'bad_json_wide_b', 'bad_json_wide_c', 'uncovered', 'no_exemption', 'big_year', 'explain_missing', 'unknown_tool', 'res_bad'):
